@@ -1278,6 +1278,7 @@ int restore_svalue (char *cp, svalue_t * v) {
   int ret;
   char c;
 
+  save_svalue_depth = 0; /* an error() raised inside an earlier restore (array/mapping too large) leaves it set */
   switch (c = *cp++)
     {
     case '"':
@@ -1339,6 +1340,7 @@ int safe_restore_svalue (char *cp, svalue_t * v) {
   svalue_t val;
   char c;
 
+  save_svalue_depth = 0; /* see restore_svalue() */
   val.type = T_NUMBER;
   switch (c = *cp++)
     {
